@@ -165,12 +165,17 @@ def run(chk):
     # ---- R5
     _limit_composition(chk, sql, scfg, first)
 
+    from .. import kinds as _kinds
+
+    chk.rule("R7", "rename only changes names: the cache resolves current names through the name maps, never through a Col object's creation-time .name")
+    chk.floor("R7", "Col.name uses in the cache layer", _kinds.cache_name_discipline(chk, "R7"), 2)
+
     # ---- R6
     fl = sym.cls("Filter")
     items = Slicer(sym, pol, pcfg.subject, fl).slice(pcfg.func.body)
     fc = [c for st, _ in flat(items) for c in calls_in(st) if isinstance(c.func, ast.Attribute) and c.func.attr == "filter"]
     chk.ob("R6", pol, pcfg.func, "polars Filter: df.filter(compile(p) for p in nd.predicates)",
-           len(fc) == 1 and f"in {pcfg.subject}.predicates" in norm(fc[0]) and "compile_col_expr" in norm(fc[0]) and "~" not in norm(fc[0]),
+           len(fc) == 1 and _filter_gen_ok(fc[0], pcfg.subject),
            "the Polars filter does not keep exactly the rows where all predicates of the verb hold")  # fmt: skip
     items = Slicer(sym, sql, scfg.subject, fl).slice(scfg.func.body)
     ext = [c for st, _ in flat(items) for c in calls_in(st) if isinstance(c.func, ast.Attribute) and c.func.attr == "extend"]
@@ -181,6 +186,22 @@ def run(chk):
     chk.ob("R6", sql, cq, "compile_query: WHERE gets query.where, HAVING gets query.having",
            {c.func.attr: ("query." + c.func.attr in norm(c)) for c in wh} == {"where": True, "having": True},
            "compile_query renders the predicate lists into the wrong clauses")  # fmt: skip
+
+
+def _filter_gen_ok(call, subject) -> bool:
+    """df.filter(<generator / list of compile_col_expr(p, ..) for p in nd.predicates>) and nothing else"""
+    if len(call.args) != 1 or call.keywords:
+        return False
+    a = call.args[0]
+    if isinstance(a, ast.Starred):
+        a = a.value
+    if not isinstance(a, (ast.GeneratorExp, ast.ListComp)) or len(a.generators) != 1:
+        return False
+    g = a.generators[0]
+    if norm(g.iter) != f"{subject}.predicates" or g.ifs:
+        return False
+    e = a.elt
+    return isinstance(e, ast.Call) and (dotted(e.func) or "").split(".")[-1] == "compile_col_expr" and e.args and norm(e.args[0]) == norm(g.target)
 
 
 def _limit_composition(chk, sql, scfg, first):
